@@ -668,11 +668,13 @@ impl<S: BitmapSlice + Send + Sync> FileSystem for PassthroughFs<S> {
         self.validate_path_component(name)?;
 
         let data = self.inode_map.get(parent)?;
+        // Get the parent's descriptor before switching credentials: with file handles it is
+        // re-opened by open_by_handle_at(), which needs CAP_DAC_READ_SEARCH.
+        let file = data.get_file()?;
 
         let res = {
             let (_uid, _gid) = set_creds(ctx.uid, ctx.gid)?;
 
-            let file = data.get_file()?;
             // Safe because this doesn't modify any memory and we check the return value.
             unsafe { libc::mkdirat(file.as_raw_fd(), name.as_ptr(), mode & !umask) }
         };
@@ -1269,11 +1271,13 @@ impl<S: BitmapSlice + Send + Sync> FileSystem for PassthroughFs<S> {
         self.validate_path_component(name)?;
 
         let data = self.inode_map.get(parent)?;
+        // Get the parent's descriptor before switching credentials: with file handles it is
+        // re-opened by open_by_handle_at(), which needs CAP_DAC_READ_SEARCH.
+        let file = data.get_file()?;
 
         let res = {
             let (_uid, _gid) = set_creds(ctx.uid, ctx.gid)?;
 
-            let file = data.get_file()?;
             // Safe because this doesn't modify any memory and we check the return value.
             unsafe { libc::symlinkat(linkname.as_ptr(), file.as_raw_fd(), name.as_ptr()) }
         };
